@@ -135,6 +135,22 @@ class PausingFactory(RecFactory):
                 except Exception as e:
                     drv.api_errors.append(("transport.pauseProducing", p.name, type(e).__name__, repr(e)[:160]))
         p.dataReceived = dataReceived
+        origm = p.connectionMade
+
+        def connectionMade():
+            origm()
+            # an application that wants nothing yet (a proxy whose other leg is not connected, say) pauses at once
+            if drv is not None and not drv.stop and drv.budget["inbound"] > 0 and drv.rng.random() < 0.2:
+                drv.budget["inbound"] -= 1
+                drv.inbound_calls += 1
+                drv.pauses_in_made += 1
+                try:
+                    p.transport.pauseProducing()
+                    drv.inpaused.setdefault(p, drv.world.step)
+                    drv.note_pause_conn(p)
+                except Exception as e:
+                    drv.api_errors.append(("transport.pauseProducing(from connectionMade)", p.name, type(e).__name__, repr(e)[:160]))
+        p.connectionMade = connectionMade
         origl = p.connectionLost
 
         def connectionLost(reason=None):
@@ -185,6 +201,7 @@ class Driver:
         self.falsy_producers = 0
         self.unregisters_in_connectionLost = 0
         self.unhashable_tried = 0
+        self.pauses_in_made = 0
 
     def side_of(self, proto):
         return proto.name[0]
@@ -546,7 +563,7 @@ def run_case(spec):
             "counters": {"probes": stats["probes"], "producer_pauses": pauses, "producer_resumes": resumes,
                          "producers": len(drv.producers), "pull_producers": sum(q.kind == "pull" for q in drv.producers), "pull_producers_finished": pull_finished,
                          "inbound_pause_calls": drv.inbound_calls, "pauses_inside_dataReceived": drv.pauses_in_data, "cuts": stats["cuts"], "notrans_seen": len(MON.notrans),
-                         "log_errors_seen": len(MON.errors), "producers_that_are_false": drv.falsy_producers, "producers_left_inside_pause": drv.left_on_pause, "pauses_after_connectionLost": drv.late_pauses, "unregisters_in_connectionLost": drv.unregisters_in_connectionLost, "unhashable_producers_tried": drv.unhashable_tried},
+                         "log_errors_seen": len(MON.errors), "producers_that_are_false": drv.falsy_producers, "producers_left_inside_pause": drv.left_on_pause, "pauses_after_connectionLost": drv.late_pauses, "unregisters_in_connectionLost": drv.unregisters_in_connectionLost, "unhashable_producers_tried": drv.unhashable_tried, "pauses_inside_connectionMade": drv.pauses_in_made},
             "sets": {"logged_errors": sorted({e[0] + ":" + e[3] for e in MON.errors})},
             "sample": {"spec": spec, "buffer_size": r.default_buffer_size,
                        "producers": [(q.proto.name, q.kind, [w for (_, w) in q.signals][:10]) for q in drv.producers][:5],
